@@ -395,6 +395,12 @@ func validateHierarchicalQueue(queue *schedulingv1beta1.Queue) error {
 		return fmt.Errorf("failed to get parent queue of queue %s: %v", queue.Name, err)
 	}
 
+	// A queue that is being deleted disappears once its finalizers are removed: it takes no new children.
+	if parentQueue.DeletionTimestamp != nil {
+		return fmt.Errorf("queue %s cannot be the parent queue of queue %s because it is being deleted",
+			parentQueue.Name, queue.Name)
+	}
+
 	childQueues, err := config.GetQueuesByParent(parentQueue.Name)
 	if err != nil {
 		return fmt.Errorf("failed to list child queues of queue %s: %v", parentQueue.Name, err)
